@@ -72,6 +72,7 @@ def specOut (c : Cfg) : Op → Out
   | .angles => .angles c.final c.final
   | .getTimes => .times c.final
   | .readMeta => .metaOut (some c.final)
+  | .save => .saved c.final
 
 theorem doDataset_spec (c : Cfg) (s : St) (h : Inv c s) :
     Inv c (doDataset c s).1 ∧ (doDataset c s).1.lonlat = true ∧ (doDataset c s).2 = .dataset c.final c.final c.final := by
@@ -104,6 +105,9 @@ theorem inv_step (c : Cfg) (s : St) (op : Op) (h : Inv c s) : Inv c (step c s op
   case angles =>
     exact inv_doLonLat c _ (inv_doTimes c s h)
   case readMeta => exact h
+  case save =>
+    have := doDataset_spec c s h
+    exact ⟨this.1.done, this.1.fresh⟩
 
 theorem inv_run (c : Cfg) (s : St) (ops : List Op) (h : Inv c s) : Inv c (run c s ops) := by
   induction ops generalizing s with
@@ -136,6 +140,10 @@ theorem step_out_spec (c : Cfg) (s : St) (op : Op) (h : Inv c s) (h1 : op ≠ .g
   case angles =>
     simp only [step, specOut]
     rw [curTimes_done c _ (inv_doLonLat c _ (inv_doTimes c s h)) (doLonLat_lonlat c _)]
+  case save =>
+    have := doDataset_spec c s h
+    simp only [step, specOut]
+    rw [curTimes_done c _ this.1 this.2.1]
 
 /-- whether coordinates are cached after a history -/
 theorem step_lonlat (c : Cfg) (s : St) (op : Op) :
@@ -144,6 +152,8 @@ theorem step_lonlat (c : Cfg) (s : St) (op : Op) :
   case dataset =>
     unfold doDataset; simp [doTimes_fst_lonlat, doLonLat_lonlat]
   case calibrated =>
+    unfold doDataset; simp [doTimes_fst_lonlat, doLonLat_lonlat]
+  case save =>
     unfold doDataset; simp [doTimes_fst_lonlat, doLonLat_lonlat]
 
 theorem run_lonlat (c : Cfg) (s : St) (ops : List Op) :
